@@ -147,7 +147,7 @@ func genBig(t *rapid.T) opCase {
 }
 
 var allOps = []string{
-	"shuffle-sites", "recombine", "swap", "rogue", "bootstrap", "subalign", "mutate", "addgaps",
+	"shuffle-sites", "recombine", "swap", "rogue", "bootstrap", "partboot", "subalign", "mutate", "addgaps",
 	"sample", "rarefy", "shuffle-seqs", "shuffle-seqs-bag", "sample-bag", "rarefy-bag",
 }
 
@@ -325,6 +325,16 @@ func genOpCase(t *rapid.T) opCase {
 		c.B = genRate(t, "proplen", 1, l, false)
 	case "bootstrap":
 		c.A = genRate(t, "frac", 1, l, false)
+	case "partboot":
+		if l < 2 {
+			c.Op = "bootstrap"
+		}
+		c.A = genRate(t, "frac", 1, l, false)
+		if c.A <= 0 && c.Op == "partboot" {
+			c.A = 1
+		}
+		c.N = rapid.IntRange(0, 40).Draw(t, "partition")
+		c.Flag = rapid.Bool().Draw(t, "modulo")
 	case "sample", "sample-bag":
 		c.N = genCount(t, n, "nb")
 	case "subalign":
@@ -362,6 +372,71 @@ type result struct {
 	Names1 []string  `json:"names1"`
 	Names2 []string  `json:"names2"`
 	Err    string    `json:"err"`
+	// Ext: the returned alignment after it was extended (Concat with a copy of itself, then Append
+	// of one row); ExtErr: an error of these two calls
+	Ext    []gen.Row `json:"ext,omitempty"`
+	ExtErr string    `json:"ext_err,omitempty"`
+}
+
+// pure operations return a new object and must leave their receiver as it is: they are also
+// replayed on the SAME object
+var pureOps = map[string]bool{"bootstrap": true, "sample": true, "sample-bag": true, "subalign": true, "rarefy": true, "rarefy-bag": true, "partboot": true}
+
+// partitionOf gives the partition index of every column for the "partboot" operation: Flag:
+// columns taken modulo k (k = 2 or 3); otherwise two ranges cut at 1+N mod (L-1)
+func partitionOf(flag bool, n, l int) (part []int, k int) {
+	part = make([]int, l)
+	if flag {
+		k = 2 + mod(n, 2)
+		if k > l {
+			k = l
+		}
+		for j := range part {
+			part[j] = j % k
+		}
+		return part, k
+	}
+	cut := 1 + mod(n, l-1)
+	for j := range part {
+		if j >= cut {
+			part[j] = 1
+		}
+	}
+	return part, 2
+}
+
+func mod(x, n int) int {
+	if n <= 0 {
+		return 0
+	}
+	x %= n
+	if x < 0 {
+		x += n
+	}
+	return x
+}
+
+func partitionSet(flag bool, n, l int) *align.PartitionSet {
+	ps := align.NewPartitionSet(l)
+	if flag {
+		_, k := partitionOf(flag, n, l)
+		for i := 0; i < k; i++ {
+			ps.AddRange(fmt.Sprintf("p%d", i), "m", i, l-1, k)
+		}
+		return ps
+	}
+	cut := 1 + mod(n, l-1)
+	ps.AddRange("p0", "m", 0, cut-1, 1)
+	ps.AddRange("p1", "m", cut, l-1, 1)
+	return ps
+}
+
+func buildFor(c opCase) align.SeqBag {
+	c = c.expand()
+	if strings.HasSuffix(c.Op, "-bag") {
+		return gen.BuildBag(c.Ali)
+	}
+	return gen.MustBuild(c.Ali)
 }
 
 func countsMap(c opCase) map[string]int {
@@ -374,8 +449,14 @@ func countsMap(c opCase) map[string]int {
 
 // execute builds a fresh container from the case, seeds goalign's random stream and runs the
 // operation once
-func execute(c opCase) (r result) {
+func execute(c opCase) (r result) { return executeOn(c, nil) }
+
+// executeOn does the same on the given container (nil: a fresh one)
+func executeOn(c opCase, x align.SeqBag) (r result) {
 	c = c.expand()
+	if x == nil {
+		x = buildFor(c)
+	}
 	r.Length = -9
 	errs := func(e error) {
 		if e != nil {
@@ -390,9 +471,28 @@ func execute(c opCase) (r result) {
 		}
 		r.Rows = gen.Snapshot(al)
 		r.Length = al.Length()
+		if len(r.Rows) == 0 {
+			return
+		}
+		// the new object is extended: its rows must behave like rows of their own
+		cp := align.NewAlign(al.Alphabet())
+		for _, row := range r.Rows {
+			cp.AddSequence(row.Name, row.Seq, "")
+		}
+		if e := al.Concat(cp); e != nil {
+			r.ExtErr = "Concat: " + e.Error()
+			return
+		}
+		more := align.NewAlign(al.Alphabet())
+		more.AddSequence("zz_new_row", strings.Repeat("A", al.Length()), "")
+		if e := al.Append(more); e != nil {
+			r.ExtErr = "Append: " + e.Error()
+			return
+		}
+		r.Ext = gen.Snapshot(al)
 	}
 	if strings.HasSuffix(c.Op, "-bag") {
-		sb := gen.BuildBag(c.Ali)
+		sb := x
 		rand.Seed(c.Seed)
 		switch c.Op {
 		case "shuffle-seqs-bag":
@@ -417,7 +517,7 @@ func execute(c opCase) (r result) {
 		}
 		return
 	}
-	al := gen.MustBuild(c.Ali)
+	al := x.(align.Alignment)
 	rand.Seed(c.Seed)
 	inplace := func() {
 		r.Rows = gen.Snapshot(al)
@@ -453,6 +553,24 @@ func execute(c opCase) (r result) {
 		ret(al.RandSubAlign(c.N, c.Flag))
 	case "rarefy":
 		ret(al.Rarefy(c.N, countsMap(c)))
+	case "partboot":
+		// the partitioned bootstrap as `build seqboot --partition` builds it
+		parts, e := al.Split(partitionSet(c.Flag, c.N, al.Length()))
+		if e != nil {
+			errs(e)
+			r.Nil = true
+			return
+		}
+		var boot align.Alignment
+		for _, p := range parts {
+			tb := p.BuildBootstrap(c.A)
+			if boot == nil {
+				boot = tb
+			} else if e := boot.Concat(tb); e != nil {
+				errs(e)
+			}
+		}
+		ret(boot, nil)
 	default:
 		panic("harness: unknown operation " + c.Op)
 	}
@@ -532,7 +650,8 @@ func countClass(x, n int) string {
 func checkOp(c opCase) (o pbt.Outcome, err error) {
 	c = c.expand()
 	orig := c.Ali.Rows
-	r1 := execute(c)
+	x := buildFor(c)
+	r1 := executeOn(c, x)
 	r2 := execute(c)
 	var j1, j2 []byte
 	if !reflect.DeepEqual(r1, r2) || c.Big == nil {
@@ -541,6 +660,44 @@ func checkOp(c opCase) (o pbt.Outcome, err error) {
 	}
 	if string(j1) != string(j2) {
 		return o, fmt.Errorf("replay: the same operation on the same input after rand.Seed(%d) gave two different results\n first : %s\n second: %s", c.Seed, trunc(string(j1), 1500), trunc(string(j2), 1500))
+	}
+	if pureOps[c.Op] {
+		// the operation does not modify its receiver: Seed(s); op(x) again on the SAME object, then
+		// after another draw from it in between
+		again := func(what string) error {
+			r := executeOn(c, x)
+			if !reflect.DeepEqual(r1, r) {
+				a, _ := json.Marshal(r1)
+				b, _ := json.Marshal(r)
+				return fmt.Errorf("replay: rand.Seed(%d) and the same operation %s on the SAME object gave a different result\n first: %s\n then : %s", c.Seed, what, trunc(string(a), 1500), trunc(string(b), 1500))
+			}
+			return nil
+		}
+		if err = again("a second time"); err != nil {
+			return
+		}
+		other := c
+		other.Seed = c.Seed ^ 0x5DEECE66D
+		executeOn(other, x)
+		if err = again("after a call with another seed in between"); err != nil {
+			return
+		}
+		o.Class("replayed on the same object")
+	}
+	// a returned alignment that is extended afterwards behaves like a list of rows of its own
+	if r1.ExtErr != "" {
+		return o, fmt.Errorf("extending the returned alignment failed: %s", r1.ExtErr)
+	}
+	if r1.Ext != nil {
+		want := make([]gen.Row, 0, len(r1.Rows)+1)
+		for _, row := range r1.Rows {
+			want = append(want, gen.Row{Name: row.Name, Seq: row.Seq + row.Seq})
+		}
+		want = append(want, gen.Row{Name: "zz_new_row", Seq: strings.Repeat("A", 2*aliLen(r1.Rows))})
+		if !gen.SameRows(r1.Ext, want) {
+			return o, fmt.Errorf("the returned alignment, after Concat with a copy of itself and Append of one row, is not its rows doubled plus the new row\n returned: %s\n extended: %s", show(r1.Rows), show(r1.Ext))
+		}
+		o.Class("result extended (Concat+Append)")
 	}
 	n, l := len(orig), c.Ali.Length()
 	got := r1.Rows
@@ -678,6 +835,20 @@ func checkOp(c opCase) (o pbt.Outcome, err error) {
 		drew = aliLen(got) > 0
 		changed = !gen.SameRows(orig, got)
 		o.Class("bootstrap frac=%s", rateClass(c.A, 1))
+	case "partboot":
+		if r1.Nil || r1.Err != "" {
+			return o, fmt.Errorf("partitioned bootstrap failed: %s", r1.Err)
+		}
+		part, k := partitionOf(c.Flag, c.N, l)
+		var amb int
+		amb, err = invPartBoot(orig, got, c.A, part, k)
+		o.Ambiguous += amb
+		if err != nil {
+			return
+		}
+		drew = aliLen(got) > 0
+		changed = !gen.SameRows(orig, got)
+		o.Class("partboot frac=%s parts=%d modulo=%v", rateClass(c.A, 1), k, c.Flag)
 	case "sample", "sample-bag":
 		out := c.N < 1 || c.N > n
 		if err = wantErr(out, "Sample with nb < 1 or nb > number of sequences"); err != nil {
